@@ -26,6 +26,7 @@ EXPLANATION = ("Configuration-specialised analysis of SafeLearner._parse_pred: f
                "choicew call is returned; kwargs are the prediction's last element and reach learner.learn as **kwargs; "
                "the per-row fall-back runs only in the handler of the batched attempt and is validated.")
 EXPLANATION += ' R8: recognition order (identity before look-alike, str before len); R9: kwargs recognised by the documented Mapping type; R10: seeds not tested for truthiness; R11: the three batch-order arms unwrap kwargs alike and the column arm transposes PMFs.'
+EXPLANATION += " R11 also: un-hinted column PMFs are transposed, {'pmf': ...} answers are not; R12: every wrapper starts with empty layout state (also around an already wrapped learner)."
 
 SAF = "coba/safety.py"
 
